@@ -2,4 +2,7 @@ package main
 
 import "verifgo/facts"
 
-func init() { extraGenerators["C06Patterns.lean"] = facts.GenC06Patterns }
+func init() {
+	extraGenerators["C06Patterns.lean"] = facts.GenC06Patterns
+	extraGenerators["C06ReadLoop.lean"] = facts.GenC06ReadLoop
+}
